@@ -405,14 +405,14 @@ def lea(ctx):
                     ck.violation("C05.lea", inst, "result depends on state.%s" % segdep[0][2], where=where,
                                  what="LEA adds the FS/GS base; hardware ignores segment overrides for LEA")
                     continue
-                # truncation: low nbits of the address, zero above
+                # truncation: low nbits of the address mem_addr yields for this operand (segment ignored), zero above
+                m0 = memop(facts, base=A.SOME(sreg(facts, breg)), index=A.SOME(sreg(facts, ireg)),
+                           segment=A.NONE, scale=scale, displacement=disp)
+                eo, _ = run_mem_addr(ctx, m0)
+                er = [x for x in eo if x.kind == "return"]
                 bv = A.bitvec(v, o.path)
-                full = None
-                tt = U.strip(v)
-                while tt[0] == "cast":
-                    tt = U.strip(tt[1])
-                fb = A.bitvec(tt, o.path)
-                if bv[:nbits] != fb[:nbits] or any(b != 0 for b in bv[nbits:]):
+                fb = A.bitvec(er[0].value, er[0].path) if len(er) == 1 else None
+                if fb is None or bv[:nbits] != fb[:nbits] or any(b != 0 for b in bv[nbits:]):
                     ck.violation("C05.lea", inst, "written value is not the low %d bits of the address" % nbits, where=where)
                 else:
                     ck.ok("C05.lea", inst)
